@@ -32,7 +32,8 @@ TNext == /\ l <= Len(Trace) /\ l' = l + 1
             /\ start' = IF ev.e = "cfg" THEN ev.start ELSE start
             /\ ends' = IF ev.e = "cfg" THEN SetOf(ev.ends) ELSE ends
             /\ slen' = IF ev.e = "cfg" THEN ev.stream_len ELSE slen
-            /\ sending' = IF ev.e = "src-sending" /\ ev.n > sending THEN ev.n ELSE sending
+            \* (a run that starts from a stored checkpoint: the source has, in effect, sent the stream up to it)
+            /\ sending' = IF ev.e \in {"src-sending", "resume-from"} /\ ev.n > sending THEN ev.n ELSE sending
             \* a run that starts from a stored checkpoint has, in effect, already received the stream up to it
             /\ recv' = IF ev.e = "tool-recv" THEN recv + ev.n ELSE IF ev.e = "resume-from" THEN ev.n ELSE recv
             /\ resumed' = (resumed \/ ev.e = "resume-from")
